@@ -26,10 +26,11 @@
       pattern of state 0, which hyphenateWord never consults (state 0 is only entered through
       `goto nextLetter`), while by the property the empty suffix is a pattern and contributes at
       every point: `digit_only_line_ignored`.
-    * `FitsStates` — `newState` and `fallbackState` are 16-bit fields and 0xffff doubles as
-      "not found" in hyphenHashLookup: a dictionary with more than 65535 states (shipped:
-      hyph_hu_HU.dic, 138663 states) gets truncated state numbers.  No `decide`-sized witness
-      exists; the check reports it on the implementation.
+    * `FitsStates` — state numbers are stored in 32-bit fields and 0xffffffff doubles as "not found"
+      in hyphenHashLookup and as the fallback of state 0, so the dictionary must compile to at most
+      0xffffffff states.  (Until liblouis commit 5522f21e the fields were 16 bit wide and
+      hyph_hu_HU.dic, 138663 states, got truncated state numbers; this development found that
+      independently and the check keeps the signature `C17:state-number-overflow`.)
 -/
 import LouModel.Hyph
 import LouProofs.Lemmas.Hyph
@@ -39,8 +40,8 @@ import LouProofs.Lemmas.HyphCompile
 namespace Lou.C17
 open Lou.Hyph List
 
-/-- every state number fits the 16-bit fields and differs from the 0xffff sentinel -/
-def FitsStates (pats : List Pat) : Prop := (compileDict pats).size ≤ 0xffff
+/-- every state number fits the 16-bit fields and differs from the 0xffffffff sentinel -/
+def FitsStates (pats : List Pat) : Prop := (compileDict pats).size ≤ 0xffffffff
 
 instance (pats : List Pat) : Decidable (FitsStates pats) := by unfold FitsStates; infer_instance
 
@@ -81,7 +82,7 @@ theorem hyph_states_are_prefixes (pats : List Pat) (hne : pats ≠ []) (fits : F
   have ok := compileDict_ok pats hne fits
   exact ⟨ok.key0, ok.isP, ok.all, ok.inj⟩
 
-/-- fallback = longest proper suffix that is a state (root: the 0xffff sentinel) -/
+/-- fallback = longest proper suffix that is a state (root: the 0xffffffff sentinel) -/
 theorem hyph_fallback_correct (pats : List Pat) (hne : pats ≠ []) (fits : FitsStates pats) :
     let d := compileDict pats
     let key := keyFn (compileC pats)
